@@ -44,6 +44,7 @@ const (
 	oStatusSym                  // generation and the stored status are arbitrary (else fixed)
 	oStatusConflict             // the status write may hit a conflict (and is then retried)
 	oBase8                      // ordinals 0..7 hold healthy up-to-date pods; the symbolic part of the world starts at ordinal 8
+	oWildSlots                  // delete-slot values are arbitrary int32 (negative, extreme, duplicates)
 )
 
 type vPodInfo struct {
@@ -112,7 +113,11 @@ func vBuildSnap(N, R, K, opts int) *vSnap {
 	// delete slots: values anywhere in the universe (below, inside, above the range)
 	k := sym.Pick("k", K+1)
 	for i := 0; i < k; i++ {
-		s.slots = append(s.slots, int32(sym.IntIn("slot", s.base, s.n-1)))
+		if opts&oWildSlots != 0 {
+			s.slots = append(s.slots, sym.Int32("slot"))
+		} else {
+			s.slots = append(s.slots, int32(sym.IntIn("slot", s.base, s.n-1)))
+		}
 	}
 	if k > 0 {
 		set.Annotations = map[string]string{helper.DeleteSlotsAnn: sym.SlotsJSON(s.slots)}
